@@ -169,6 +169,10 @@ class Report:
         return True
 
     def undecided_obligation(self, name, why=""):
+        for u in self.undecided:
+            if u["obligation"] == name:
+                u["paths"] = u.get("paths", 1) + 1
+                return
         self.undecided.append({"obligation": name, "why": why})
 
     def crash(self, what):
